@@ -6,6 +6,7 @@ CONSTANTS
   MaxChan = 3
   Labels = {1, 2}
   Chans = {0, 2, 5}
+  Edits = FALSE
   AutoRule = "max"
 INVARIANT InvConforms
 INVARIANT InvAligned
